@@ -64,10 +64,40 @@ var nFixed = len(corpus)
 // types (checked-in ones and the all-shapes schema, which alone hold Any,
 // Timestamp, every map kind ...), half to the whole corpus.
 func pickTypeIndex(t *simhook.Tape) int {
-	if len(corpus) == nFixed || t.Draw("type-fixed", 2) == 0 {
+	switch d := t.Draw("type-fixed", 4); {
+	case d == 3 && len(wktTypes) > 0:
+		// a quarter of the draws: types embedding well-known types (Any,
+		// Timestamp, Duration), which the properties name explicitly
+		return wktTypes[t.Draw("type-wkt", len(wktTypes))]
+	case len(corpus) == nFixed || d == 0 || d == 3:
 		return t.Draw("type", nFixed)
 	}
 	return t.Draw("type-any", len(corpus))
+}
+
+// wktTypes: corpus indices of types with a field (directly, or one message
+// below) of a google.protobuf type.
+var wktTypes []int
+
+func embedsWKT(md protoreflect.MessageDescriptor, depth int) bool {
+	fds := md.Fields()
+	for i := 0; i < fds.Len(); i++ {
+		fd := fds.Get(i)
+		sub := fd.Message()
+		if fd.IsMap() {
+			sub = fd.MapValue().Message()
+		}
+		if sub == nil {
+			continue
+		}
+		if strings.HasPrefix(string(sub.FullName()), "google.protobuf.") {
+			return true
+		}
+		if depth > 0 && sub.FullName() != md.FullName() && embedsWKT(sub, depth-1) {
+			return true
+		}
+	}
+	return false
 }
 
 func pickType(t *simhook.Tape) proto.Message { return corpus[pickTypeIndex(t)] }
@@ -77,6 +107,11 @@ func main() {
 	e.Init = func(p map[string]string) error {
 		corpus = append(corpus, rndcorpus.Messages...)
 		corpus = append(corpus, discoverTypes()...)
+		for i, m := range corpus {
+			if embedsWKT(infoOf(m).Desc, 1) {
+				wktTypes = append(wktTypes, i)
+			}
+		}
 		if gr := os.Getenv("GORACE"); strings.Contains(gr, "log_path=") {
 			for _, kv := range strings.Fields(gr) {
 				if strings.HasPrefix(kv, "log_path=") {
